@@ -1,13 +1,65 @@
 //! bcder_impl — line-protocol driver around the REAL bcder crate (path dependency on the tree
 //! under verification). One request per line on stdin, one answer per line on stdout; same
 //! protocol as /verif/lean/Driver.lean.
+mod enc;
 mod ops;
 mod script;
 mod stream;
 mod util;
 
+use std::alloc::{GlobalAlloc, Layout, System};
 use std::io::{self, BufRead, Write};
 use std::panic;
+use std::sync::atomic::{AtomicUsize, Ordering};
+
+/// counting allocator: current and peak live bytes (peak is reset per metered request)
+struct Counting;
+static LIVE: AtomicUsize = AtomicUsize::new(0);
+static PEAK: AtomicUsize = AtomicUsize::new(0);
+unsafe impl GlobalAlloc for Counting {
+    unsafe fn alloc(&self, l: Layout) -> *mut u8 {
+        let p = System.alloc(l);
+        if !p.is_null() {
+            let live = LIVE.fetch_add(l.size(), Ordering::Relaxed) + l.size();
+            PEAK.fetch_max(live, Ordering::Relaxed);
+        }
+        p
+    }
+    unsafe fn dealloc(&self, p: *mut u8, l: Layout) {
+        LIVE.fetch_sub(l.size(), Ordering::Relaxed);
+        System.dealloc(p, l)
+    }
+    unsafe fn realloc(&self, p: *mut u8, l: Layout, new: usize) -> *mut u8 {
+        let q = System.realloc(p, l, new);
+        if !q.is_null() {
+            if new >= l.size() {
+                let live = LIVE.fetch_add(new - l.size(), Ordering::Relaxed) + (new - l.size());
+                PEAK.fetch_max(live, Ordering::Relaxed);
+            } else {
+                LIVE.fetch_sub(l.size() - new, Ordering::Relaxed);
+            }
+        }
+        q
+    }
+}
+#[global_allocator]
+static A: Counting = Counting;
+
+/// `meter <request>`: run the request on a thread with a 256 KiB stack and report the peak of
+/// additional live heap bytes while it ran
+fn metered(req: String) -> String {
+    let base = LIVE.load(Ordering::Relaxed);
+    PEAK.store(base, Ordering::Relaxed);
+    let h = std::thread::Builder::new().stack_size(256 * 1024).spawn(move || {
+        panic::catch_unwind(|| ops::handle(&req))
+    }).unwrap();
+    let r = h.join();
+    let peak = PEAK.load(Ordering::Relaxed).saturating_sub(base);
+    match r {
+        Ok(Ok(s)) => format!("{} | peak={}", s, peak),
+        _ => "PANIC in metered request".into(),
+    }
+}
 
 fn main() {
     panic::set_hook(Box::new(|_| {}));
@@ -19,6 +71,11 @@ fn main() {
             Ok(l) => l,
             Err(_) => break,
         };
+        if let Some(rest) = line.strip_prefix("meter ") {
+            let ans = metered(rest.to_string());
+            writeln!(out, "{}", ans).unwrap();
+            continue;
+        }
         let ans = match panic::catch_unwind(|| ops::handle(&line)) {
             Ok(s) => s,
             Err(e) => {
